@@ -49,6 +49,12 @@ def base_scenarios(rng, tier):
     ops = [reg(1), add(1, 1, garbled(2049)), add(1, 1, garbled(10)), add(1, 2, valid(2, 5)), reg(1), add(1, 2, valid(2, 1)), sub(1),
            mine([D(2)]), sub(1)]
     out.append(scen("crash-slots", CFG_F, ops))
+    # the penalty is mined while the tower is down: the replayed dispute block is answered with "already in chain"
+    ops = [reg(1), reg(2), add(1, 1, valid(1, 1)), add(2, 1, valid(1, 1)), add(1, 2, valid(2, 1)), mine([D(1), D(2)]), get(1, 1), ff(2, "each"), get(1, 1), get(2, 1),
+           get(1, 2), sub(1)]
+    sc = scen("crash-minedwhiledown", CFG_A, ops)
+    sc["while_down"] = [mine([P(1, 1)], poll=False), mine([], poll=False)]
+    out.append(sc)
     if tier == "thorough":
         for k in range(6):
             sc = T.fam_random(rng, 1, cfgs=(CFG_A, CFG_F), length=40)[0]
@@ -115,7 +121,8 @@ def main(tier, replay=None):
                 v = copy.deepcopy(b)
                 v["name"] = "%s@%d" % (b["name"], k)
                 v["crash_at"] = k
-                v["ref"] = 0
+                if "while_down" not in b:
+                    v["ref"] = 0      # same history: the final state must equal the uninterrupted run's
                 refs[v["name"]] = b
                 group.append(v)
             stats["crash_points_run"] += len(ks)
@@ -129,7 +136,10 @@ def main(tier, replay=None):
             camp.run([ref, var], var["name"].replace("-", "_").replace("+", "_"))
             stats["histories"] += 1
     for t in camp.tags:
-        if t["prop"] != PID:
+        if t["prop"] != PID and t.get("after_crash") and t["prop"] in ("C01", "C02", "C04", "C07", "C09") and "@" in t["scenario"]["name"]:
+            # after the restart every block not finished before the crash is answered exactly as the specification says
+            t = dict(t, what="after_restart." + t["prop"] + "." + t["what"])
+        elif t["prop"] != PID:
             continue
         ev = t["event"]
         sname = t["scenario"]["name"]
